@@ -63,7 +63,24 @@ MANIFEST = {
             "and one-folder-per-file hold whether the loader completes or raises, and after setup_for_episode both counters are zero "
             "(C15_initial_state; the missing reset was defect F-C15e, fixed). Rig: families H / health (corrupt -> delete -> restore at "
             "file and folder level on every surface, with the number of corrupt-and-deleted items brought back MEASURED on the real "
-            "objects) and cfg (real Computer.from_config with generated folder lists, then setup_for_episode).",
+            "objects) and cfg (real Computer.from_config with generated folder lists, then setup_for_episode). "
+            "Round 7: NO method of FileSystem / Folder / File is tied by text any more. Translated statement by statement from the source "
+            "and proved equal to the model's functions (Props/C15Create.lean): FileSystem.__init__, get_file, create_folder, create_file "
+            "(calling the translated create_folder / get_file / Folder.add_file; under Inv: C15_gen_create_file, and through the handler "
+            "C15_gen_create_file_request), pre_timestep, setup_for_episode (C15_gen_counter_resets), access_file, the uuid-keyed API "
+            "(get_folder_by_id, delete_file_by_id, delete_folder_by_id, Folder.get_file_by_id, remove_file_by_id), "
+            "Folder.remove_all_files, copy_file, move_file (under Inv and one-folder-per-file; folder variables are re-read from the "
+            "state after an in-place mutation), apply_timestep of FileSystem and Folder (only LIVE folders tick), describe_state of both "
+            "(C15_gen_describe_state = the model's describe, which C15_describe_exact is about), the three handler closures of "
+            "_init_request_manager and the five validators (C15_gen_handlers, C15_gen_validators = the model's guards). Methods with "
+            "no structural effect (Folder.scan / repair / corrupt / reveal_to_red, _scan_timestep, _reveal_to_red_timestep, "
+            "pre_timestep of Folder and File, File.apply_timestep / reveal_to_red, FileSystem.scan / reveal_to_red) are CHECKED to be "
+            "structurally inert by the extractor (only whitelisted non-structural attributes written, only whitelisted callees). "
+            "The routes of FileSystem._init_request_manager are GENERATED from its add_request calls (validator attributes resolved to the "
+            "translated validators, lambdas / closures to the translated methods / handlers) and the model's step for delete / restore / "
+            "create / access / pre_timestep / apply_timestep is proved to BE that composition (C15_gen_step_from_translated). "
+            "Still textual: the `_file_action` closure (dispatch into a file's own request manager), Folder._init_request_manager and the "
+            "nesting of the sub-managers (request-tree tables).",
     "note": "C15-specific: health status, red-scan timers, sizes and file types are not modelled (no influence on structure "
             "or response status); no request "
             "path raises (after repair F-C05-2 a handler that lacks an option is answered `failure`: C15_no_request_raises, "
@@ -76,7 +93,7 @@ MANIFEST = {
 }
 MODULES = ["PrimaiteModel.Props.C15Keeps", "PrimaiteModel.Props.C15Loader", "PrimaiteModel.Props.C15", "PrimaiteModel.Props.C15Api", "PrimaiteModel.Props.C15Node", "PrimaiteModel.Props.C15Verbs",
            "PrimaiteModel.Props.C15Actions", "PrimaiteModel.Props.C15Inventory", "PrimaiteModel.Props.C15Disjoint",
-           "PrimaiteModel.Props.C15Health"]
+           "PrimaiteModel.Props.C15Health", "PrimaiteModel.Props.C15Create"]
 EXE = "drv_c15"
 
 
@@ -189,13 +206,13 @@ def run(ctx: Ctx):
         for k, ops in enumerate(rig.exhaustive(rig.api_alphabet(), depth)):
             yield f"exhC{depth}:{k}", {"surface": "fs", "restore_duration": 1, "ops": ops}
         rng = ctx.rng.fork("fs")
-        for k in range(ctx.scale(1500, 30000)):
+        for k in range(ctx.scale(1300, 30000)):
             yield f"gen:{k}", rig.gen_case(rng, max_ops=ctx.scale(30, 60))
         rng2 = ctx.rng.fork("fs-api")
-        for k in range(ctx.scale(1500, 15000)):
+        for k in range(ctx.scale(1300, 15000)):
             yield f"genapi:{k}", rig.gen_case(rng2, max_ops=ctx.scale(30, 60), api=True)
         rng3 = ctx.rng.fork("fs-churn")
-        for k in range(ctx.scale(1200, 10000)):
+        for k in range(ctx.scale(1000, 10000)):
             yield f"churn:{k}", rig.gen_churn_case(rng3)
         # health x deletion: corrupt -> delete -> restore at file and folder level, on every surface
         depth = ctx.scale(4, 5)
@@ -210,11 +227,11 @@ def run(ctx: Ctx):
             yield f"exhR{depth}:{k}", {"surface": ("fs", "node")[k % 2], "restore_duration": 3 if k % 4 < 2 else 2,
                                       "ops": [["cfile", "fa", "a", False]] + ops}
         rng5 = ctx.rng.fork("fs-health")
-        for k in range(ctx.scale(600, 10000)):
+        for k in range(ctx.scale(500, 10000)):
             yield f"health:{k}", rig.gen_health_case(rng5, max_ops=ctx.scale(24, 40))
         # the configured initial state: HostNode.__init__ over generated folder lists, then setup_for_episode
         rng6 = ctx.rng.fork("fs-cfg")
-        for k in range(ctx.scale(400, 5000)):
+        for k in range(ctx.scale(350, 5000)):
             yield f"cfg:{k}", rig.gen_cfg_case(rng6)
         # node level: a real computer in a small network, power requests interleaved with file operations
         depth = ctx.scale(3, 4)
@@ -224,7 +241,7 @@ def run(ctx: Ctx):
             for k, ops in enumerate(rig.exhaustive(rig.node_alphabet(), depth)):
                 yield f"exhN{depth}:{c}:{k}", {"surface": "net", "restore_duration": 1, "node": dict(cfg, actions=bool(k % 2)), "ops": ops}
         rng4 = ctx.rng.fork("fs-net")
-        for k in range(ctx.scale(700, 6000)):
+        for k in range(ctx.scale(600, 6000)):
             yield f"net:{k}", rig.gen_net_case(rng4, max_ticks=ctx.scale(10, 14))
 
     state = {"agree": 0, "total": 0, "reported": 0, "t_impl": 0.0, "t_model": 0.0, "actions": set()}
